@@ -355,6 +355,212 @@ End Run.
 End Glue.
 
 (* ================================================================================================================== *)
+(* Which commits make up a window, read off the HISTORY: StorageWindows.arrivals without the state                        *)
+(* ================================================================================================================== *)
+
+(* the drop rules on arrival, as a function of the configuration, the request, the clock of arrival and the history before
+   it (StorageProofs.reaches_ring_history): configured cluster; not older than expire-group; accepted by storage's lists;
+   partition >= 0; a broker offset recorded for exactly (c,t,p) that no deletion of the topic follows *)
+Definition accepted_on_arrival (cf : config) (cls : list Z) (h1 : hist) (now c g t p ts : Z) : bool :=
+  in_cls c cls && negb (too_old cf now ts) && cf_accept cf g && (0 <=? p) && broker_known h1 c t p.
+
+(* the requests that remove the windows of group g on topic t: deletion of the topic, deletion of the group (whole, or this topic) *)
+Definition removes (c g t : Z) (r : req) : bool :=
+  match r with
+  | DeleteTopic c' t' => (c' =? c) && (t' =? t)
+  | DeleteGroup c' g' t' => (c' =? c) && (g' =? g) && ((t' =? 0) || (t =? t'))
+  | _ => false
+  end.
+(* ... and the expiry purge: a FetchConsumer for (c,g) that finds the group's last commit older than expire-group *)
+Definition purges (cf : config) (now : Z) (st : state) (c g : Z) (r : req) : bool :=
+  match r with
+  | FetchConsumer c' g' => (c' =? c) && (g' =? g) && group_expired cf now st c g
+  | _ => false
+  end.
+
+(* the expiry purge is observable: the request that purges the group is answered "not found" *)
+Lemma purge_is_404 cf now st c g r st' rep :
+  purges cf now st c g r = true -> step cf now st r = Done st' rep -> rep = RNil.
+Proof.
+  destruct r; cbn [purges]; try discriminate. intros H. apply andb_true_iff in H as [H He]. apply andb_true_iff in H as [H1 H2].
+  apply Z.eqb_eq in H1, H2. subst. cbn [step]. unfold fetch_consumer. unfold group_expired in He.
+  destruct (get st c) as [cl|]; [|discriminate]. destruct (get (cl_consumer cl) g) as [grp|]; [|discriminate].
+  rewrite He. intros E. injection E as _ <-. reflexivity.
+Qed.
+
+Lemma resets_split cf now st c g t r : resets cf now st c g t r = removes c g t r || purges cf now st c g r.
+Proof. destruct r; cbn [resets removes purges orb]; try reflexivity; rewrite orb_false_r; reflexivity. Qed.
+
+(* nothing after the commit removes it: [pre] is the history up to and including the commit, [h2] what follows *)
+Definition not_removed_after (cf : config) (cls : list Z) (pre h2 : hist) (c g t : Z) : Prop :=
+  forall h2a now' r h2b, h2 = h2a ++ (now', r) :: h2b ->
+    removes c g t r = false /\
+    forall st' reps', run cf (init_state cls) (pre ++ h2a) = Some (st', reps') -> purges cf now' st' c g r = false.
+
+(* a commit request of the history that was not dropped on arrival and that nothing removed afterwards *)
+Definition live_commit (cf : config) (cls : list Z) (h : hist) (c g t p : Z) (cm : commit) : Prop :=
+  exists h1 now h2,
+    h = h1 ++ (now, SetConsumerOffset c g t p (cm_offset cm) (cm_order cm) (cm_ts cm)) :: h2 /\
+    accepted_on_arrival cf cls h1 now c g t p (cm_ts cm) = true /\
+    not_removed_after cf cls (h1 ++ [(now, SetConsumerOffset c g t p (cm_offset cm) (cm_order cm) (cm_ts cm))]) h2 c g t.
+
+Lemma snoc_split {A} (h : list A) a h1 x h2 :
+  h ++ [a] = h1 ++ x :: h2 -> (h2 = [] /\ h = h1 /\ a = x) \/ exists h2', h2 = h2' ++ [a] /\ h = h1 ++ x :: h2'.
+Proof.
+  intros E. destruct h2 as [|y h2] using rev_ind.
+  - left. apply app_inj_tail in E. destruct E as [-> ->]. auto.
+  - right. clear IHh2.
+    change (h1 ++ x :: h2 ++ [y]) with (h1 ++ (x :: h2) ++ [y]) in E. rewrite app_assoc in E.
+    apply app_inj_tail in E. destruct E as [-> ->]. exists h2. auto.
+Qed.
+
+Lemma reaches_accepted cf cls h st reps now c g t p ts :
+  run cf (init_state cls) h = Some (st, reps) ->
+  (reaches_ring cf now st c g t p ts <> None <-> accepted_on_arrival cf cls h now c g t p ts = true).
+Proof.
+  intros Hrun. rewrite (reaches_ring_history cf cls h st reps now c g t p ts Hrun). unfold accepted_on_arrival.
+  destruct (in_cls c cls && negb (too_old cf now ts) && cf_accept cf g && (0 <=? p) && broker_known h c t p) eqn:E.
+  - split; [reflexivity|]. intros _.
+    apply andb_true_iff in E as [E Ebk]. apply andb_true_iff in E as [E Ep]. apply andb_true_iff in E as [E _].
+    apply andb_true_iff in E as [Ein _]. apply in_cls_spec in Ein. apply Z.leb_le in Ep.
+    destruct (broker_known_iff_history cf cls h st reps c t p Hrun) as [Hiff Hval].
+    destruct (proj2 Hiff (conj Ein (conj Ep Ebk))) as (cl & Hg & Hk). rewrite (Hval cl Hg Hk). discriminate.
+  - split; [intros H; contradiction H; reflexivity|discriminate].
+Qed.
+
+Lemma not_removed_snoc cf cls pre h2 now r c g t st reps :
+  not_removed_after cf cls pre h2 c g t ->
+  run cf (init_state cls) (pre ++ h2) = Some (st, reps) ->
+  removes c g t r = false -> purges cf now st c g r = false ->
+  not_removed_after cf cls pre (h2 ++ [(now, r)]) c g t.
+Proof.
+  intros Hn Hrun Hr Hp h2a now' r' h2b E.
+  destruct h2b as [|y h2b] using rev_ind.
+  - apply app_inj_tail in E. destruct E as [<- E]. injection E as <- <-. split; [exact Hr|].
+    intros st' reps' Hrun'. rewrite Hrun in Hrun'. injection Hrun' as <- _. exact Hp.
+  - clear IHh2b. change (h2a ++ (now', r') :: h2b ++ [y]) with (h2a ++ ((now', r') :: h2b) ++ [y]) in E.
+    rewrite app_assoc in E. apply app_inj_tail in E. destruct E as [E _]. exact (Hn _ _ _ _ E).
+Qed.
+
+Lemma not_removed_prefix cf cls pre h2 a c g t :
+  not_removed_after cf cls pre (h2 ++ [a]) c g t -> not_removed_after cf cls pre h2 c g t.
+Proof.
+  intros Hn h2a now' r h2b E. apply (Hn h2a now' r (h2b ++ [a])). rewrite E, <- app_assoc. reflexivity.
+Qed.
+
+(* the window's arrival list (StorageWindows.arrivals: defined with the storage state at each arrival) holds exactly the
+   live commits of the history *)
+Theorem arrivals_are_live_commits cf cls c g t p h : forall st reps,
+  run cf (init_state cls) h = Some (st, reps) ->
+  forall cm, (exists lagv, In (cm, lagv) (arrivals cf cls h c g t p)) <-> live_commit cf cls h c g t p cm.
+Proof.
+  induction h as [|[now r] h IH] using rev_ind; intros st reps Hrun cm.
+  - unfold arrivals. cbn [arrivals_from]. split; [intros [? []]|]. intros (h1 & now & h2 & E & _). destruct h1; discriminate.
+  - pose proof Hrun as Hrun'. rewrite run_snoc in Hrun'.
+    destruct (run cf (init_state cls) h) as [[st1 reps1]|] eqn:Hrun1; [|discriminate].
+    destruct (step cf now st1 r) as [st2 rep|] eqn:Hstep; [|discriminate].
+    specialize (IH st1 reps1 eq_refl).
+    unfold arrivals. rewrite arrivals_from_snoc, Hrun1, Hstep. fold (arrivals cf cls h c g t p).
+    set (acc := arrivals cf cls h c g t p) in *.
+    assert (Hext : forall cm0, live_commit cf cls h c g t p cm0 -> resets cf now st1 c g t r = false ->
+                               live_commit cf cls (h ++ [(now, r)]) c g t p cm0).
+    { intros cm0 (h1 & now0 & h2 & E & Hacc & Hnr) Hres. exists h1, now0, (h2 ++ [(now, r)]). split; [rewrite E, <- app_assoc; reflexivity|].
+      split; [exact Hacc|]. rewrite resets_split in Hres. apply orb_false_iff in Hres as [Hr1 Hr2].
+      eapply not_removed_snoc; [exact Hnr| |exact Hr1|exact Hr2].
+      rewrite <- app_assoc. cbn [app]. rewrite <- E. exact Hrun1. }
+    assert (Hback : forall cm0, live_commit cf cls (h ++ [(now, r)]) c g t p cm0 ->
+              (h ++ [(now, r)] = h ++ [(now, SetConsumerOffset c g t p (cm_offset cm0) (cm_order cm0) (cm_ts cm0))] /\
+               accepted_on_arrival cf cls h now c g t p (cm_ts cm0) = true) \/
+              (live_commit cf cls h c g t p cm0 /\ resets cf now st1 c g t r = false)).
+    { intros cm0 (h1 & now0 & h2 & E & Hacc & Hnr). apply snoc_split in E as [(-> & -> & E)|(h2' & -> & ->)].
+      - left. injection E as -> ->. auto.
+      - right. split.
+        + exists h1, now0, h2'. split; [reflexivity|]. split; [exact Hacc|]. eapply not_removed_prefix; exact Hnr.
+        + destruct (Hnr h2' now r [] eq_refl) as [Hr1 Hr2]. rewrite resets_split, Hr1. cbn [orb]. apply (Hr2 st1 reps1).
+          rewrite <- app_assoc. cbn [app]. exact Hrun1. }
+    unfold next_arrivals. destruct (is_commit_for c g t p r) as [[[off order] ts]|] eqn:Eic.
+    + apply is_commit_for_some in Eic. subst r.
+      assert (Hres : resets cf now st1 c g t (SetConsumerOffset c g t p off order ts) = false) by reflexivity.
+      pose proof (reaches_accepted cf cls h st1 reps1 now c g t p ts Hrun1) as Hra.
+      split.
+      * intros [lagv Hin]. destruct (reaches_ring cf now st1 c g t p ts) as [boff|] eqn:Err.
+        -- apply in_app_or in Hin as [Hin|[Hin|[]]].
+           ++ apply Hext; [apply IH; eauto|exact Hres].
+           ++ injection Hin as <- _. exists h, now, []. cbn [cm_offset cm_order cm_ts]. split; [reflexivity|].
+              split; [apply Hra; discriminate|]. intros h2a now' r' h2b E. destruct h2a; discriminate.
+        -- apply Hext; [apply IH; eauto|exact Hres].
+      * intros Hl. destruct (Hback cm Hl) as [[E Hacc]|[Hl' _]].
+        -- apply app_inj_tail in E as [_ E]. injection E as -> -> ->.
+           apply Hra in Hacc. destruct (reaches_ring cf now st1 c g t p (cm_ts cm)) as [boff|]; [|contradiction Hacc; reflexivity].
+           exists (commit_lag boff (cm_offset cm)). apply in_or_app. right. left. destruct cm; reflexivity.
+        -- apply IH in Hl' as [lagv Hin]. exists lagv. destruct (reaches_ring cf now st1 c g t p ts); [apply in_or_app; left|]; exact Hin.
+    + pose proof (is_commit_for_none _ _ _ _ _ Eic) as Hnot. split.
+      * intros [lagv Hin]. destruct (resets cf now st1 c g t r) eqn:Hres; [contradiction|].
+        apply Hext; [apply IH; eauto|reflexivity].
+      * intros Hl. destruct (Hback cm Hl) as [[E _]|[Hl' Hres]].
+        -- apply app_inj_tail in E as [_ E]. injection E as E. exfalso. exact (Hnot _ _ _ E).
+        -- rewrite Hres. apply IH. exact Hl'.
+Qed.
+
+(* ---- the same, with the expiry clause read off the history too (StorageWindows.group_expired_history) ---- *)
+
+(* "the group's last commit is older than expire-group at clock now": h_ginfo's first component is the timestamp of the last
+   commit of the group that was placed as the newest since the group was last created (StorageWindows.hsim, a recursion over
+   the history alone) *)
+Definition expired_h (cf : config) (cls : list Z) (hpre : hist) (now c g : Z) : bool :=
+  match h_ginfo cf cls hpre c g with Some (L, _) => expired cf now L | None => false end.
+
+Definition purges_h (cf : config) (cls : list Z) (hpre : hist) (now c g : Z) (r : req) : bool :=
+  match r with
+  | FetchConsumer c' g' => (c' =? c) && (g' =? g) && expired_h cf cls hpre now c g
+  | _ => false
+  end.
+
+Definition not_removed_after_h (cf : config) (cls : list Z) (pre h2 : hist) (c g t : Z) : Prop :=
+  forall h2a now' r h2b, h2 = h2a ++ (now', r) :: h2b ->
+    removes c g t r = false /\ purges_h cf cls (pre ++ h2a) now' c g r = false.
+
+(* a commit request of the history, not dropped on arrival, not removed afterwards - every clause a function of the
+   configuration and the request list *)
+Definition live_commit_h (cf : config) (cls : list Z) (h : hist) (c g t p : Z) (cm : commit) : Prop :=
+  exists h1 now h2,
+    h = h1 ++ (now, SetConsumerOffset c g t p (cm_offset cm) (cm_order cm) (cm_ts cm)) :: h2 /\
+    accepted_on_arrival cf cls h1 now c g t p (cm_ts cm) = true /\
+    not_removed_after_h cf cls (h1 ++ [(now, SetConsumerOffset c g t p (cm_offset cm) (cm_order cm) (cm_ts cm))]) h2 c g t.
+
+Lemma run_prefix cf st h1 h2 s reps :
+  run cf st (h1 ++ h2) = Some (s, reps) -> exists s1 reps1, run cf st h1 = Some (s1, reps1).
+Proof. rewrite run_app. destruct (run cf st h1) as [[s1 r1]|]; [eauto|discriminate]. Qed.
+
+Lemma live_commit_h_iff cf cls h st reps c g t p cm :
+  (1 <= cf_intervals cf)%nat -> wf_hist h -> run cf (init_state cls) h = Some (st, reps) ->
+  (live_commit cf cls h c g t p cm <-> live_commit_h cf cls h c g t p cm).
+Proof.
+  intros HN Hwf Hrun.
+  assert (Hp : forall pre h2 h2a now' r h2b st' reps',
+             h = pre ++ h2 -> h2 = h2a ++ (now', r) :: h2b ->
+             run cf (init_state cls) (pre ++ h2a) = Some (st', reps') ->
+             purges cf now' st' c g r = purges_h cf cls (pre ++ h2a) now' c g r).
+  { intros pre h2 h2a now' r h2b st' reps' E1 E2 Hr. destruct r; try reflexivity. cbn [purges purges_h]. unfold expired_h.
+    rewrite <- (group_expired_history cf cls (pre ++ h2a) st' reps' now' c g HN); [reflexivity| |exact Hr].
+    rewrite E1, E2, app_assoc in Hwf. apply wf_hist_app in Hwf. exact (proj1 Hwf). }
+  split; intros (h1 & now & h2 & E & Hacc & Hnr); exists h1, now, h2; (split; [exact E|]); (split; [exact Hacc|]);
+    intros h2a now' r h2b E2.
+  - destruct (Hnr h2a now' r h2b E2) as [Hr1 Hr2]. split; [exact Hr1|].
+    assert (Hrun' : exists st' reps', run cf (init_state cls)
+              ((h1 ++ [(now, SetConsumerOffset c g t p (cm_offset cm) (cm_order cm) (cm_ts cm))]) ++ h2a) = Some (st', reps')).
+    { apply (run_prefix cf (init_state cls) _ ((now', r) :: h2b) st reps). rewrite <- !app_assoc. cbn [app]. rewrite <- E2, <- E. exact Hrun. }
+    destruct Hrun' as (st' & reps' & Hrun').
+    rewrite <- (Hp (h1 ++ [(now, SetConsumerOffset c g t p (cm_offset cm) (cm_order cm) (cm_ts cm))]) h2 h2a now' r h2b st' reps');
+      [exact (Hr2 st' reps' Hrun')| |exact E2|exact Hrun'].
+    rewrite <- app_assoc. cbn [app]. exact E.
+  - destruct (Hnr h2a now' r h2b E2) as [Hr1 Hr2]. split; [exact Hr1|]. intros st' reps' Hrun'.
+    rewrite (Hp (h1 ++ [(now, SetConsumerOffset c g t p (cm_offset cm) (cm_order cm) (cm_ts cm))]) h2 h2a now' r h2b st' reps');
+      [exact Hr2| |exact E2|exact Hrun'].
+    rewrite <- app_assoc. cbn [app]. exact E.
+Qed.
+
+(* ================================================================================================================== *)
 (* End-to-end theorems                                                                                                  *)
 (* ================================================================================================================== *)
 Section EndToEnd.
@@ -828,6 +1034,8 @@ Theorem lag_exact now0 evs ps outs h c g showall ps' cz gz sa gsv :
                Wire.process_message (pc_reader_accept pc c) key value (co_order k) = Wire.Done rs al /\
                In (Wire.SetConsumerOffset g0 t0 (ps_partition pst) (co_offset k) ts (co_order k)) rs /\
                name g0 = name g /\ name t0 = ps_topic pst) /\
+           (exists x, In x (arrivals (pc_storage pc) (pc_clusters pc) h c (name g) (ps_topic pst) (ps_partition pst)) /\
+                      cm_offset (fst x) = co_offset k /\ cm_order (fst x) = co_order k) /\
            (forall x, In x (arrivals (pc_storage pc) (pc_clusters pc) h c (name g) (ps_topic pst) (ps_partition pst)) ->
                       cm_order (fst x) <= co_order k)
        end) /\
@@ -863,19 +1071,145 @@ Proof.
     assert (Hk : In (Some k) (ring_run (cf_min_distance cf) (cf_intervals cf) arr)).
     { apply last_some_in in Elast. rewrite Hro in Elast. unfold readout in Elast. apply in_rev in Elast. exact Elast. }
     destruct (ring_run_entries _ _ _ _ Hk) as (cl & Hcl_in & Hoff & Hord).
-    split; [|split].
+    split; [|split; [|split]].
     + exists b. split; [|exact Hcl]. unfold pipe_run in Hrun. rewrite <- (last_broker_pipe pc c t (Z.of_nat i) evs _ _ _ _ Hrun). exact Hlb.
     + destruct (arrivals_in_hist cf cls c (name g) t (Z.of_nat i) h cl Hcl_in) as [now Hh].
       rewrite <- Hoff, <- Hord in Hh. unfold pipe_run in Hrun.
       destruct (hist_from_message pc c (name g) t (Z.of_nat i) (co_offset k) (co_order k) (cm_ts (fst cl)) evs _ _ _ _ now Hrun Hh)
         as (key & value & rs & al & g0 & t0 & H1 & H2 & H3 & H4 & H5).
       exists key, value, rs, al, g0, t0, (cm_ts (fst cl)). auto 10.
+    + exists cl. auto.
     + assert (Hne : arr <> []) by (intros E; rewrite E in Hcl_in; contradiction).
       destruct (run_newest_last (cf_min_distance cf) (cf_intervals cf) arr HN Hne) as (k' & Hl' & _ & Hmax).
       rewrite <- Hro, Elast in Hl'. injection Hl' as <-. exact Hmax.
   - rewrite Htot, Hparts, Hlags. apply total_lag_sum. unfold part_lags. apply Forall_forall. intros z Hz.
     apply in_flat_map in Hz as [[t cps] [Hin Hz]]. cbn [snd] in Hz. apply in_map_iff in Hz as [cp [<- Hcp]].
     apply In_nth_error in Hcp as [i Hi]. unfold in_u64. eapply Hlag; eauto.
+Qed.
+
+(* e2e_lag_exact with the drop rules read off the history: the newest reported commit is a LIVE commit of the history - not
+   dropped on arrival by the state-free rules [accepted_on_arrival], not removed afterwards - and no live commit of that
+   group / topic / partition has a higher log position. *)
+Theorem lag_exact_live now0 evs ps outs h c g showall ps' cz gz sa gsv :
+  Forall event_ok evs ->
+  pipe_run name pc now0 evs = Some (ps, outs, h) ->
+  pipe_step name pc ps (StatusRequest c g showall) = Some (ps', [OStatus cz gz sa (Some gsv)]) ->
+  exists gs,
+    gsv = view showall gs /\ cz = c /\ gz = name g /\ sa = showall /\
+    (forall pst, In pst (gs_partitions gs) ->
+       0 <= ps_lag pst < two64 /\
+       match ps_end pst with
+       | None => ps_lag pst = 0
+       | Some k =>
+           (exists b, last_answer pc (pinit pc now0) evs c (ps_topic pst) (ps_partition pst) = Some b /\
+                      ps_lag pst = Z.max 0 (b - co_offset k)) /\
+           (exists key value rs al g0 t0 ts,
+               In (KafkaMessage c key value (co_order k)) evs /\
+               Wire.process_message (pc_reader_accept pc c) key value (co_order k) = Wire.Done rs al /\
+               In (Wire.SetConsumerOffset g0 t0 (ps_partition pst) (co_offset k) ts (co_order k)) rs /\
+               name g0 = name g /\ name t0 = ps_topic pst) /\
+           (exists ts, live_commit (pc_storage pc) (pc_clusters pc) h c (name g) (ps_topic pst) (ps_partition pst)
+                                   (mkCommit (co_offset k) (co_order k) ts)) /\
+           (forall cm, live_commit (pc_storage pc) (pc_clusters pc) h c (name g) (ps_topic pst) (ps_partition pst) cm ->
+                       cm_order cm <= co_order k)
+       end) /\
+    gs_totallag gs = fold_right Z.add 0 (map ps_lag (gs_partitions gs)) mod two64.
+Proof.
+  intros Hok Hrun Hstep.
+  destruct (pipeline_hist_wf name pc HN H24 now0 evs Hok) as (ps0 & outs0 & h0 & Hrun0 & Hwf & _ & [reps Hr]).
+  rewrite Hrun in Hrun0. injection Hrun0 as <- <- <-.
+  destruct (lag_exact now0 evs ps outs h c g showall ps' cz gz sa gsv Hok Hrun Hstep) as (gs & E1 & E2 & E3 & E4 & Hparts & Htot).
+  exists gs. do 4 (split; [assumption|]). split; [|exact Htot].
+  intros pst Hpst. destruct (Hparts pst Hpst) as [Hrange Hm]. split; [exact Hrange|].
+  destruct (ps_end pst) as [k|]; [|exact Hm]. destruct Hm as (Hb & Hmsg & Hk & Hmax).
+  split; [exact Hb|]. split; [exact Hmsg|].
+  pose proof (arrivals_are_live_commits (pc_storage pc) (pc_clusters pc) c (name g) (ps_topic pst) (ps_partition pst) h _ _ Hr) as Hlive.
+  split.
+  - destruct Hk as ([cm lagv] & Hin & Hoff & Hord). cbn [fst] in Hoff, Hord. exists (cm_ts cm).
+    replace (mkCommit (co_offset k) (co_order k) (cm_ts cm)) with cm by (destruct cm; cbn in *; subst; reflexivity).
+    apply Hlive. exists lagv. exact Hin.
+  - intros cm Hl. apply Hlive in Hl as [lagv Hin]. exact (Hmax (cm, lagv) Hin).
+Qed.
+
+(* e2e_lag_exact, closed form: as [lag_exact_live] with [live_commit_h], every clause of which is a function of the
+   configuration and the produced request list (itself the concatenation, in event order, of each event's requests stamped
+   with the clock: [hist_split_events]). *)
+Theorem lag_exact_closed now0 evs ps outs h c g showall ps' cz gz sa gsv :
+  Forall event_ok evs ->
+  pipe_run name pc now0 evs = Some (ps, outs, h) ->
+  pipe_step name pc ps (StatusRequest c g showall) = Some (ps', [OStatus cz gz sa (Some gsv)]) ->
+  exists gs,
+    gsv = view showall gs /\ cz = c /\ gz = name g /\ sa = showall /\
+    (forall pst, In pst (gs_partitions gs) ->
+       0 <= ps_lag pst < two64 /\
+       match ps_end pst with
+       | None => ps_lag pst = 0
+       | Some k =>
+           (exists b, last_answer pc (pinit pc now0) evs c (ps_topic pst) (ps_partition pst) = Some b /\
+                      ps_lag pst = Z.max 0 (b - co_offset k)) /\
+           (exists key value rs al g0 t0 ts,
+               In (KafkaMessage c key value (co_order k)) evs /\
+               Wire.process_message (pc_reader_accept pc c) key value (co_order k) = Wire.Done rs al /\
+               In (Wire.SetConsumerOffset g0 t0 (ps_partition pst) (co_offset k) ts (co_order k)) rs /\
+               name g0 = name g /\ name t0 = ps_topic pst) /\
+           (exists ts, live_commit_h (pc_storage pc) (pc_clusters pc) h c (name g) (ps_topic pst) (ps_partition pst)
+                                     (mkCommit (co_offset k) (co_order k) ts)) /\
+           (forall cm, live_commit_h (pc_storage pc) (pc_clusters pc) h c (name g) (ps_topic pst) (ps_partition pst) cm ->
+                       cm_order cm <= co_order k)
+       end) /\
+    gs_totallag gs = fold_right Z.add 0 (map ps_lag (gs_partitions gs)) mod two64.
+Proof.
+  intros Hok Hrun Hstep.
+  destruct (pipeline_hist_wf name pc HN H24 now0 evs Hok) as (ps0 & outs0 & h0 & Hrun0 & Hwf & _ & [reps Hr]).
+  rewrite Hrun in Hrun0. injection Hrun0 as <- <- <-.
+  destruct (lag_exact_live now0 evs ps outs h c g showall ps' cz gz sa gsv Hok Hrun Hstep) as (gs & E1 & E2 & E3 & E4 & Hparts & Htot).
+  exists gs. do 4 (split; [assumption|]). split; [|exact Htot].
+  intros pst Hpst. destruct (Hparts pst Hpst) as [Hrange Hm]. split; [exact Hrange|].
+  destruct (ps_end pst) as [k|]; [|exact Hm]. destruct Hm as (Hb & Hmsg & [ts Hk] & Hmax).
+  split; [exact Hb|]. split; [exact Hmsg|]. split.
+  - exists ts. apply (live_commit_h_iff _ _ _ _ _ _ _ _ _ _ HN Hwf Hr). exact Hk.
+  - intros cm Hl. apply Hmax. apply (live_commit_h_iff _ _ _ _ _ _ _ _ _ _ HN Hwf Hr). exact Hl.
+Qed.
+
+(* where a request of the produced history comes from: the events before it, the event itself (its requests at the state
+   and clock it met), the events after it.  Positions in the history are positions in the event sequence. *)
+Lemma hist_split_events evs : forall ps ps' outs h ha now r hb,
+  pipe_exec name pc ps evs = Some (ps', outs, h) -> h = ha ++ (now, r) :: hb ->
+  exists evs1 ev evs2 ps1 o1 h1 rs ra rb ps2 o2 h2 outs_ev,
+    evs = evs1 ++ ev :: evs2 /\
+    pipe_exec name pc ps evs1 = Some (ps1, o1, h1) /\
+    event_reqs name pc ps1 ev = Some rs /\ rs = ra ++ r :: rb /\ now = p_now ps1 /\
+    pipe_step name pc ps1 ev = Some (ps2, outs_ev) /\
+    pipe_exec name pc ps2 evs2 = Some (ps', o2, h2) /\
+    ha = h1 ++ stamp (p_now ps1) ra /\ hb = stamp (p_now ps1) rb ++ h2.
+Proof.
+  induction evs as [|ev evs IH]; intros ps ps' outs h ha now r hb He Hsplit; cbn [pipe_exec] in He.
+  - injection He as _ _ <-. destruct ha; discriminate.
+  - destruct (pipe_step name pc ps ev) as [[ps1 outs1]|] eqn:Es; [|discriminate].
+    destruct (pipe_exec name pc ps1 evs) as [[[ps2 outs2] h2]|] eqn:Ee; [|discriminate]. injection He as <- _ <-.
+    symmetry in Hsplit. apply app_eq_app in Hsplit as [l [[Ha Hb]|[Ha Hb]]].
+    + (* the request lies in a later event *)
+      destruct (IH ps1 ps2 outs2 h2 l now r hb Ee Hb) as
+        (evs1 & ev' & evs2 & psa & o1 & h1 & rs & ra & rb & psb & o2 & h2' & oev & -> & H1 & H2 & H3 & H4 & H5 & H6 & H7 & H8).
+      exists (ev :: evs1), ev', evs2, psa, (outs1 ++ o1), (step_hist name pc ps ev ++ h1), rs, ra, rb, psb, o2, h2', oev.
+      split; [reflexivity|]. split; [cbn [pipe_exec]; rewrite Es, H1; reflexivity|].
+      do 5 (split; [assumption|]). split; [|exact H8]. rewrite Ha, H7, app_assoc. reflexivity.
+    + destruct l as [|x l].
+      * (* exactly at the border: the first request of the next events *)
+        rewrite app_nil_r in Ha. cbn [app] in Hb.
+        destruct (IH ps1 ps2 outs2 h2 [] now r hb Ee (eq_sym Hb)) as
+          (evs1 & ev' & evs2 & psa & o1 & h1 & rs & ra & rb & psb & o2 & h2' & oev & -> & H1 & H2 & H3 & H4 & H5 & H6 & H7 & H8).
+        exists (ev :: evs1), ev', evs2, psa, (outs1 ++ o1), (step_hist name pc ps ev ++ h1), rs, ra, rb, psb, o2, h2', oev.
+        split; [reflexivity|]. split; [cbn [pipe_exec]; rewrite Es, H1; reflexivity|].
+        do 5 (split; [assumption|]). split; [|exact H8]. rewrite <- app_assoc, <- H7, app_nil_r. symmetry. exact Ha.
+      * (* one of this event's requests *)
+        cbn [app] in Hb. injection Hb as <- ->.
+        unfold step_hist in Ha. destruct (event_reqs name pc ps ev) as [rs|] eqn:Er; [|destruct ha; discriminate].
+        unfold stamp in Ha. apply map_eq_app in Ha as (ra & rest & -> & Hra & Hrest).
+        destruct rest as [|r0 rb]; [discriminate|]. cbn [map] in Hrest. injection Hrest as Hnow <- Hrb.
+        exists [], ev, evs, ps, [], [], (ra ++ r0 :: rb), ra, rb, ps1, outs2, h2, outs1.
+        split; [reflexivity|]. split; [reflexivity|]. split; [exact Er|]. split; [reflexivity|]. split; [auto|].
+        split; [exact Es|]. split; [exact Ee|]. split; [cbn [app]; rewrite <- Hra; reflexivity|]. unfold stamp. rewrite Hrb. reflexivity.
 Qed.
 
 (* [last_answer] in C11's terms: the value is the first offset of the ErrNoError answer that the broker asked for (t, p)
